@@ -79,7 +79,7 @@ GapQ(I, i, j) == QSub(W(I, i), W(I, j))
 BOf(I)   == TLCEval(Congruence(I.M, I.adot))          \* M^T Adot M = s Q^T Adot Q
 
 IsSymI(A) == \A p \in DOMAIN A : \A q \in DOMAIN A : A[p][q] = A[q][p]
-Ascending(I) == \A k \in 1..(I.n - 1) : QLeq(W(I, k), W(I, k + 1))
+Ascending(I) == \A k \in 1..(I.n - 1) : I.wn[k] <= I.wn[k + 1]
 ScaledOrth(I) == MatMul(Transpose(I.M), I.M) = [p \in Idx(I) |-> [q \in Idx(I) |-> IF p = q THEN I.s ELSE 0]]
 
 \* clusters: maximal runs of consecutive eigenvalues closer than tau
@@ -151,9 +151,10 @@ VARIABLES idx, done, inst
 vars == <<idx, done, inst>>
 Insts == ndJsonDeserialize(IOEnv.EIGH_INST)
 
-MinGap(I) == IF I.n = 1 THEN QInt(1000000)
-             ELSE FoldSet(LAMBDA k, acc : IF QLt(GapQ(I, k + 1, k), acc) THEN GapQ(I, k + 1, k) ELSE acc,
-                          QInt(1000000), 1..(I.n - 1))
+\* smallest gap between consecutive eigenvalues (compared on the common denominator wden)
+MinGap(I) == IF I.n = 1 THEN QInt(1)
+             ELSE QNorm(FoldSet(LAMBDA k, acc : IF I.wn[k + 1] - I.wn[k] < acc THEN I.wn[k + 1] - I.wn[k] ELSE acc,
+                                I.wn[2] - I.wn[1], 1..(I.n - 1)), I.wden)
 OracleOf(I) ==
   LET Bm  == BOf(I)
       ls  == SetToSortSeq(Leaders(I), <)
